@@ -247,6 +247,64 @@ def run(ck: Check) -> int:
         sr.note = ('self-match and one-edit neighbours of s against escape(s): fnmatch on names, glob on paths (Unix and Windows rules, '
                    'drive/UNC prefixes), non-magic patterns; equivalences allowed: case folding, separator spelling, duplicate/trailing separators')
     ck.search('escape-is-literal-api', s_search)
+
+    def s_magic_hist(sr):
+        # is_magic answers the same question whatever the process did before (added after seeded change C09i: the per-flag set of magic
+        # symbols was cached and the glob splitter removed the braces from the SHARED set, so after any BRACE glob `is_magic('{a,b}', BRACE)`
+        # was False although the pattern still expands): answers before, after a history of walker / matcher calls, and against the literal clause
+        import os
+        import shutil
+        import tempfile
+        from wcmatch import pathlib as WP
+        tmp = tempfile.mkdtemp(prefix='c09h-', dir='/tmp')
+        sr.note = ('is_magic (fnmatch and glob, str and bytes) on brace / split / tilde / extglob / negation / drive-shaped patterns under each of their '
+                   'flags, asked before and after a history of glob / iglob / Path.glob / globmatch / translate calls with those flags (str, bytes, '
+                   'FORCEWIN): same answers; and a pattern reported non-magic matches itself literally')
+        try:
+            open(os.path.join(tmp, 'a'), 'w').close()
+            qs = [('{a,b}', 'BRACE'), ('x{1..3}', 'BRACE'), ('a|b', 'SPLIT'), ('~x', 'GLOBTILDE'), ('@(a)', 'EXTMATCH'), ('!a', 'NEGATE'), ('-a', 'MINUSNEGATE'),
+                  ('//server/sh{a,b}re/f', 'BRACE'), ('//server/sh|re/f', 'SPLIT'), ('plain', 'BRACE'), ('a*', 'BRACE')]
+
+            def ask():
+                out = []
+                for q, fn in qs:
+                    for mod in (F, G):
+                        if not hasattr(mod, fn):
+                            continue
+                        for plat in (0, mod.FORCEWIN, mod.FORCEUNIX):
+                            for fl in (getattr(mod, fn) | plat, plat, getattr(mod, fn) | mod.NEGATE | plat):
+                                out.append((mod.__name__, q, fl, mod.is_magic(q, flags=fl), mod.is_magic(q.encode(), flags=fl)))
+                return out
+            before = ask()
+            for fn in ('BRACE', 'SPLIT', 'GLOBTILDE', 'EXTGLOB', 'NEGATE', 'MINUSNEGATE'):
+                b = getattr(G, fn)
+                for plat in (0, G.FORCEWIN):
+                    for extra in (0, G.NEGATE, G.BRACE | G.SPLIT):
+                        G.glob('{a,b}*', flags=b | plat | extra, root_dir=tmp)
+                        list(G.iglob(b'{a,b}*', flags=b | plat | extra, root_dir=os.fsencode(tmp)))
+                        list(WP.Path(tmp).glob('a|b', flags=(b | extra) & ~G.FORCEWIN))
+                        G.globmatch('a', '{a,b}', flags=b | plat | extra)
+                        G.translate(b'{a,b}', flags=b | plat | extra)
+                        F.fnmatch('a', '{a,b}|c', flags=(F.BRACE | F.SPLIT) | (F.FORCEWIN if plat else 0))
+            after = ask()
+            sr.evaluations = len(before) * 2
+            for x, y in zip(before, after):
+                if x != y:
+                    ck.report(Failing(f'{x[0]}.is_magic({x[1]!r}, flags={x[2]:#x}) changes after other calls in the process: (str, bytes) = {x[3:]} before, {y[3:]} after',
+                                      {'api': x[0] + '.is_magic', 'pattern': x[1], 'flags': x[2], 'history': 'glob / iglob / Path.glob / globmatch / translate / fnmatch calls with BRACE, SPLIT, … (str, bytes, FORCEWIN)'},
+                                      list(x[3:]), list(y[3:])), None)
+                    sr.histogram['FAIL'] = sr.histogram.get('FAIL', 0) + 1
+            # non-magic => literal, after the history
+            for mod_name, q, fl, ms, mb in after:
+                mod = F if mod_name.endswith('fnmatch') else G
+                if not ms and not (fl & mod.FORCEWIN and not fl & mod.FORCEUNIX and q.startswith('//')):
+                    hit = [n for n in ('a', 'b', 'x1', 'x', '@(a)', 'server') if n != q and (mod.fnmatch(n, q, flags=fl) if mod is F else mod.globmatch(n, q, flags=fl))]
+                    if hit:
+                        ck.report(Failing(f'{mod_name}.is_magic({q!r}, flags={fl:#x}) is False but the pattern matches {hit}', {'api': mod_name + '.is_magic', 'pattern': q, 'flags': fl}, 'literal', hit), None)
+            sr.distinct = len(qs)
+        finally:
+            shutil.rmtree(tmp, ignore_errors=True)
+    ck.search('is_magic-histories', s_magic_hist)
     if drv:
         drv.close()
     return ck.finish()
